@@ -86,7 +86,7 @@ Record obs_step := { os_ev : ev;            (* the event, error class as the imp
                      os_hnorm : N }.        (* same, a slot reading 0 while its set has a member reported as 1 *)
 Record obs_case := { oc_cfg : config; oc_nd : nat; oc_na : nat;
                      oc_init_hfull : N; oc_init_hproj : N;
-                     oc_keys : list (N * dom * N);
+                     oc_keys : list (N * dom * N);   (* outbound id, type, slot index the implementation writes *)
                      oc_steps : list obs_step }.
 
 Definition spec_ev (s : obs_step) : ev :=
@@ -128,7 +128,8 @@ Definition check_case (c : obs_case) : list (N * N) :=
   (if hash_list (obs_full cfg (oc_nd c) (oc_na c) m0) =? oc_init_hfull c then [] else [(0, 1)])
   ++ (if hash_list (obs_proj_spec cfg (oc_nd c) true s_init []) =? oc_init_hproj c then [] else [(0, 2)])
   ++ (if list_eqb (obs_proj_model cfg (oc_nd c) true m0) (obs_proj_spec cfg (oc_nd c) true s_init []) then [] else [(0, 3)])
-  ++ (if forallb (fun k => match k with (g, d, v) => conn_key (g + 2) d =? v end) (oc_keys c) then [] else [(0, 4)])
+  ++ (if forallb (fun k => match k with (o, d, v) => conn_key o d =? v end) (oc_keys c) then [] else [(0, 4)])
+  ++ (if forallb (fun k => match k with (o, d, v) => spec_slot o d =? v end) (oc_keys c) then [] else [(0, 2); (0, 6)])
   ++ check_steps cfg (oc_nd c) (oc_na c) (oc_steps c) m0 s_init 1.
 
 (* debugging aid: the model's and the spec's observations step by step *)
